@@ -2,6 +2,7 @@ import TonicModel.Model.Shutdown
 import TonicModel.Spec.Shutdown
 import TonicModel.Lemmas.Shutdown
 import TonicModel.Lemmas.ShutdownViews
+import TonicModel.Lemmas.ShutdownProgress
 /-
 C13 — Graceful shutdown loses no accepted call.  Property theorems only; the invariant and its
 preservation are in `Lemmas/Shutdown`, the oracle in `Spec/Shutdown`.
@@ -140,6 +141,63 @@ theorem C13_resolve_enabled_iff (s : State) :
     cases hgr : s.cfgGraceful with
     | false => simp [hgr] at this
     | true => exact this.2 (h3 hgr)
+
+/-- The server's own steps (tonic's tasks, hyper, handlers) cannot go on for ever: any run made
+of internal steps only is at most `weight s` long — from ANY state, for any interleaving. -/
+theorem C13_internal_steps_terminate {s s' : State} {ls : List Label}
+    (hall : ∀ l ∈ ls, l.internal = true) (h : run s ls = some s') :
+    ls.length + weight s' ≤ weight s :=
+  internal_run_bounded hall h
+
+/-- (d, no stuck state) In every reachable state in which shutdown has been requested (signal
+fired, or incoming ended, or the loop is over), no handler is waiting for an outside release, and
+the future has not resolved yet, the server can take a step of its own.  With
+`C13_internal_steps_terminate`: every maximal run of internal steps ends in a resolved state. -/
+theorem C13_not_stuck_before_resolved {b a : Bool} {s : State} (h : Reachable true b a s)
+    (hreq : ShutdownRequested s) (hub : Unblocked s) (hres : s.resolved = false) :
+    ∃ l, l.internal = true ∧ (step s l).isSome = true :=
+  progress (good_reachable h) (reachable_cfg h).1 hreq hub hres
+
+/-- (d) "and does resolve once they have": from every reachable state in which the accept loop is
+over and every accepted connection is closed, the serve future resolves within `weight s` steps
+of its own — nothing else has to happen. -/
+theorem C13_resolve_enabled_once_all_closed {b a : Bool} {s : State} (h : Reachable true b a s)
+    (hloop : s.loopRunning = false) (hclosed : allClosed (connViews s) = true) :
+    ∃ ls s', (∀ l ∈ ls, l.internal = true) ∧ run s ls = some s' ∧ s'.resolved = true
+      ∧ ls.length ≤ weight s := by
+  have hac : AllClosed s := by
+    intro cn hcn ha
+    simp only [allClosed, connViews, List.all_eq_true, List.mem_map, Bool.or_eq_true,
+      Bool.not_eq_true'] at hclosed
+    rcases hclosed (connView cn) ⟨cn, hcn, rfl⟩ with hx | hx
+    · simp [connView, ha] at hx
+    · exact hx
+  refine drain (fun s => s.cfgGraceful = true ∧ s.loopRunning = false ∧ AllClosed s) ?_ ?_
+    (weight s) s (Nat.le_refl _) (good_reachable h) ⟨(reachable_cfg h).1, hloop, hac⟩
+  · intro s l s' _ hp hi hs
+    exact ⟨(step_cfg hs).1.trans hp.1, (step_mono hs).2.2.1 hp.2.1, allClosed_step hp.2.1 hp.2.2 hi hs⟩
+  · intro s hg hp hr
+    exact progress hg hp.1 (Or.inr (Or.inr hp.2.1)) (unblocked_of_allClosed hg hp.2.2) hr
+
+/-- (a)+(d) liveness of the whole shutdown: from every reachable state in which shutdown has been
+requested and handlers are left to run, the server reaches — by its own steps alone, in at most
+`weight s` of them, without any client having to go away — a state where the serve future has
+resolved; by `C13_resolve_only_when_all_closed` every accepted call is complete there. -/
+theorem C13_shutdown_completes {b a : Bool} {s : State} (h : Reachable true b a s)
+    (hreq : ShutdownRequested s) (hfree : s.freeRun = true) :
+    ∃ ls s', (∀ l ∈ ls, l.internal = true) ∧ run s ls = some s' ∧ s'.resolved = true
+      ∧ ls.length ≤ weight s := by
+  refine drain (fun s => s.cfgGraceful = true ∧ ShutdownRequested s ∧ s.freeRun = true) ?_ ?_
+    (weight s) s (Nat.le_refl _) (good_reachable h) ⟨(reachable_cfg h).1, hreq, hfree⟩
+  · intro s l s' _ hp hi hs
+    have hm := step_mono hs
+    refine ⟨(step_cfg hs).1.trans hp.1, ?_, hm.2.2.2 hp.2.2⟩
+    rcases hp.2.1 with hx | hx | hx
+    · exact Or.inl (hm.1 hx)
+    · exact Or.inr (Or.inl (hm.2.1 hx))
+    · exact Or.inr (Or.inr (hm.2.2.1 hx))
+  · intro s hg hp hr
+    exact progress hg hp.1 hp.2.1 (fun _ _ _ _ _ _ _ _ => Or.inr hp.2.2) hr
 
 -- hypotheses are satisfiable: a reachable, resolved state with an accepted connection and a
 -- completed call (signal placed while the call is in flight)
